@@ -177,4 +177,30 @@ Theorem timed_events_app : forall Tm (absdiff : Tm -> Tm -> Tm) (t0 : Tm) (block
   = timed_events absdiff t0 blocks nw n docs1 ++ timed_events absdiff t0 blocks nw n docs2.
 Proof. intros. unfold timed_events. apply flat_map_app. Qed.
 
+(* ---------- the timed driver only sees timestamp differences ---------- *)
+
+Lemma flat_map_ext_In : forall A B (f g : A -> list B) l, (forall x, In x l -> f x = g x) -> flat_map f l = flat_map g l.
+Proof.
+  induction l; intros H; [reflexivity|]. simpl. rewrite H by (left; reflexivity).
+  rewrite IHl by (intros; apply H; right; assumption). reflexivity.
+Qed.
+
+Lemma flat_map_map : forall A B C (h : A -> B) (g : B -> list C) l, flat_map g (map h l) = flat_map (fun x => g (h x)) l.
+Proof. induction l; [reflexivity|]. simpl. rewrite IHl. reflexivity. Qed.
+
+Theorem timed_events_shift : forall Tm (absdiff : Tm -> Tm -> Tm) (t0 t0' : Tm) (f : Tm -> Tm)
+    (blocks : list (tblock K Tm)) nw n docs,
+  (forall a b, absdiff (f a) (f b) = absdiff a b) ->
+  timed_events absdiff t0' blocks nw n (map (map (fun it => (fst it, f (snd it)))) docs)
+  = timed_events absdiff t0 blocks nw n docs.
+Proof.
+  intros Tm absdiff t0 t0' f blocks nw n docs Hf. unfold timed_events. rewrite flat_map_map.
+  apply flat_map_ext. intros s. unfold timed_doc_events. rewrite map_length.
+  apply flat_map_ext_In. intros p Hp. apply in_seq in Hp. f_equal.
+  unfold timed_occ. set (F := fun it : nat * Tm => (fst it, f (snd it))).
+  rewrite (nth_map_lt _ _ F s (0, t0) (0, t0')) by lia. simpl fst. simpl snd.
+  f_equal. apply map_ext. intros b. rewrite window_at_index_map, !map_map. simpl fst. simpl snd.
+  f_equal. f_equal. f_equal. apply map_ext. intros w. apply Hf.
+Qed.
+
 End Drivers.
